@@ -173,6 +173,15 @@ def r2_identity(ctx):
     rep.floor('C19.R2', 'def headers', len(names), 1)
     def closure(node, x, seen):
         reads = set(_attr_reads(x, ex))
+        # a helper that is handed the example: what it reads from its parameter counts (inlining bound 1)
+        for c in [y for y in ast.walk(x) if isinstance(y, ast.Call)]:
+            r = ctx.res.resolve_call(f, c)
+            if r[0] == 'repo' and len(r[1]) == 1:
+                h = r[1][0]
+                hp = [a.arg for a in h.node.args.args]
+                for i, a in enumerate(c.args):
+                    if is_name(a, ex) and i < len(hp):
+                        reads |= _attr_reads(h.node, hp[i])
         for nm in [y for y in ast.walk(x) if isinstance(y, ast.Name) and isinstance(y.ctx, ast.Load) and y.id != ex]:
             for d in rd.at(node, nm.id):
                 if id(d) in seen:
